@@ -445,9 +445,17 @@ def evaluate__sum(self: XPathFunction, context: ta.ContextType = None) -> ta.One
             values = [self.number_value(x) if isinstance(x, XPathNode) else x
                       for x in self[0].select_flatten(context)]
         else:
-            values = [get_double(self.string_value(x), xsd_version)
-                      if isinstance(x, XPathNode) else x
-                      for x in self[0].select_flatten(context)]
+            # the argument is atomized: the typed values of schema-typed nodes, the
+            # string value of the other nodes cast to xs:double
+            values = []
+            for x in self[0].select_flatten(context):
+                if isinstance(x, XPathNode):
+                    values.extend(
+                        get_double(v.value, xsd_version) if isinstance(v, UntypedAtomic) else v
+                        for v in self.atomize_item(x)
+                    )
+                else:
+                    values.append(x)
     except (TypeError, ValueError):
         if self.parser.version == '1.0':
             return math.nan
